@@ -170,9 +170,9 @@ parser! {
             = r_name:$(['x' | 'y' | 'z' | 'X' | 'Y' | 'Z']) !char_ident() { Reg16::from_str(r_name.to_lowercase().as_str()).unwrap() }
 
         pub rule index_ops() -> IndexOps
-            = "-" r:reg16() { IndexOps::PreDecrement(r) }
+            = "-" space() r:reg16() { IndexOps::PreDecrement(r) }
             / r:reg16() space() "+" space() e:expr() { IndexOps::PostIncrementE(r, e) }
-            / r:reg16() "+" { IndexOps::PostIncrement(r) }
+            / r:reg16() space() "+" { IndexOps::PostIncrement(r) }
             / r:reg16() !char_ident() { IndexOps::None(r) }
 
 
